@@ -163,4 +163,57 @@ PROPS = {
                      "values are generated so that the writer accepts them fault-free; inputs a writer rejects by its own rules are counted and skipped",
                      "table/text/lake output has no reader; completeness there is only checked by line count (text)"],
     ),
+    "C05": dict(
+        engine="ctxsim", level="exploration", gomaxprocs=1, env={"GODEBUG": "asyncpreemptoff=1"},
+        budget_s=dict(quick=30, thorough=1200),
+        rule=("one run = 2..5 goroutines sharing one zed.Context, each with 1..6 operations drawn from: build a described type through the Lookup* calls (union members in a drawn permutation), "
+              "LookupByValue of a foreign context's type value (the caller's slice is overwritten afterwards, as a recycled buffer would be), TranslateType (and back through a third context), "
+              "LookupTypeValue + decoding it in a fresh context, DecodeTypeValue of a record type whose first field defines a name and whose second refers to it, and rebinding a type name. Types come "
+              "from a small pool (so the same structure is reached along different routes) over all kinds to depth 3, three type names, four field names. Goroutines are parked at every operation and "
+              "at the two places where the context drops its lock mid-operation (simhook points zed.context.*), and released by the seeded scheduler. Oracle (the harness's own structural signature, "
+              "no use of the repository's serialisation): the returned type has the requested structure; one type object per structure; a type object never reads differently later; the type value "
+              "of a type never changes and equals the one a context with a different history produces. Non-trivial = more than one operation ran; distinct = distinct schedule trace hash."),
+        real=["zed.Context (all Lookup*, LookupByValue, TranslateType, LookupTypeValue, DecodeTypeValue, EncodeTypeValue)", "type constructors and CompareTypes/union normalisation"],
+        stub=["goroutine choice at operation boundaries and at the context's two unlock windows (seeded scheduler)", "clock (synctest bubble)"],
+        assumptions=["interleavings at operation and unlock-window granularity: the bodies of the Lookup* calls run under the context's mutex and are atomic to each other by construction",
+                     "depth <= 3, alphabets of 3 type names and 4 field names"],
+    ),
+    "C06": dict(
+        engine="opsim", level="exploration", gomaxprocs=2,
+        budget_s=dict(quick=30, thorough=1200),
+        rule=("two kinds of run. sort: 1..400 records with one or two keys (ints; or a mix of ints, floats, strings, null and missing), program 'sort [-r] [-nulls first|last] k1[,k2]', executed once "
+              "with the default memory limit and again with sort.MemMaxBytes drawn from {1,64,400,3000} bytes (0..k spilled runs merged from temp files); oracle: output is a permutation of the input, "
+              "adjacent values respect the harness's own order on the first key where it is defined (same kind), nulls are placed as asked, equal key tuples keep input order, and the output is byte-identical "
+              "for every memory limit. merge: 2..6 sorted inputs of 0..30 values in batches of 1..8 through merge.New, the parent goroutines parked at their simhook points and released by the seeded "
+              "scheduler; oracle: every value exactly once, sorted, order within an input preserved, no deadlock or panic. Non-trivial = more than one value and (sort) at least one lowered limit."),
+        real=["compiler + runtime.CompileQuery", "sam/op/sort incl. spill.MergeSort over real temp files", "sam/op/merge", "sam/expr comparators"],
+        stub=["input (in-memory value slices)", "merge parent goroutine choice (seeded scheduler)", "clock (synctest bubble, merge runs)"],
+        assumptions=["the order between keys of different kinds is not judged (the harness defines order only within a kind and for null placement)",
+                     "spill files are real files in the run's private TMPDIR; disk errors on them are not injected"],
+    ),
+    "C10": dict(
+        engine="opsim", level="exploration", gomaxprocs=2,
+        budget_s=dict(quick=30, thorough=1200),
+        rule=("two kinds of run. group-by: 1..300 records whose key k is drawn from {1,2,3,1.,2.5,1(uint64),\"a\",\"b\",\"1\",null(int64),null(string),true,10.0.0.1,missing}, optional second key, "
+              "program 'n:=count() [where v>0], s:=sum(v), lo:=min(v), hi:=max(v), vs:=union(v) by k[,g]' executed with groupby.DefaultLimit at its default and drawn from {1,2,3,7} (every new key beyond "
+              "the limit spills the table; results are merged from spill files), each optionally on a drawn permutation of the input; oracle: the multiset of output rows equals the harness's own grouping "
+              "by (type, value) of the key. join: 0..25 left and 0..25 right rows over 2/4/12 integer keys, sorted or not, inner/left/right/anti; oracle: multiset equality with a nested-loop join. "
+              "Non-trivial = several groups and a lowered limit, or both join inputs non-empty."),
+        real=["compiler + runtime.CompileQuery", "sam/op/groupby incl. spill.MergeSort", "sam/op/join (with the sorts the compiler inserts)", "sam/expr aggregators"],
+        stub=["input (in-memory value slices and an in-memory storage.Engine for the join's second input)"],
+        assumptions=["aggregates over integers only (float sums are order-dependent by rounding)", "collect() is not judged (its order is input order by design); join keys are non-null integers",
+                     "declared-sorted input and partials-in/partials-out are exercised by C08's parallel legs, not here"],
+    ),
+    "C20": dict(
+        engine="opsim", level="exploration", gomaxprocs=2,
+        budget_s=dict(quick=30, thorough=1200),
+        rule=("one run = 1..40 values: records over fields a,b,c,r,e,m,n (ints/strings/null, floats/bools, arrays and sets of differing element types, nested records of differing shapes and orders, "
+              "errors/IPs, maps, named types and unions) in two field orders with fields omitted at random, in a quarter of runs mixed with non-record values; program 'fuse' with fuse.MemMaxBytes at "
+              "default and drawn from {1,40,200} bytes (spill to a temp file). Oracle: one output per input in input order; every output has exactly the type 'fuse(this)' reports; every non-null leaf "
+              "of the input is at the same path with the same type and bytes in the output, looking through unions, with set/map entries compared as multisets, and the output has no other non-null "
+              "leaves; output byte-identical for every memory limit. Non-trivial = more than one distinct input type."),
+        real=["compiler + runtime.CompileQuery", "sam/op/fuse incl. spill.File", "sam/expr/agg Schema/merge", "sam/expr ConstShaper"],
+        stub=["input (in-memory value slices)"],
+        assumptions=["error values are passed through unshaped by design and are only used as field values", "maps of differing types run under their own signature (known finding, upstream issue #2894)"],
+    ),
 }
